@@ -90,6 +90,10 @@ func compileEval(src string, input []fhir.Resource, opts ...fhirpath.EvaluateOpt
 	})
 }
 
+func compileEvalOpts(src string, input []fhir.Resource, opts []fhirpath.EvaluateOption) Outcome {
+	return compileEval(src, input, opts...)
+}
+
 // ---------------------------------------------------------------- error classes
 
 // errClass maps an error to the small enum the model uses (what errors.Is can observe).
